@@ -9,6 +9,20 @@ import (
 	cidlink "github.com/ipld/go-ipld-prime/linking/cid"
 )
 
+// fastDecMode is the CBOR decoding mode of the hand-written decoders below.
+//
+// The library's default mode rejects arrays with more than 131072 elements, a limit the
+// schema (and the bindnode/dag-cbor decoder) does not have: a node with a longer link list
+// would be readable by the classic decoder but not by the fast one. The limit is raised to
+// the maximum the library supports; everything else stays at the defaults.
+var fastDecMode = func() cbor.DecMode {
+	dm, err := cbor.DecOptions{MaxArrayElements: 2147483647}.DecMode()
+	if err != nil {
+		panic(fmt.Errorf("failed to create CBOR decoding mode: %w", err))
+	}
+	return dm
+}()
+
 type _array []any
 
 // Get(i) returns the i-th element of the array, and bool indicating whether the element exists.
@@ -98,7 +112,7 @@ var (
 
 // implement the BinaryUnmarshaler interface for EpochFast
 func (x *Epoch) UnmarshalCBOR(data []byte) error {
-	dec := cbor.NewDecoder(bytes.NewReader(data))
+	dec := fastDecMode.NewDecoder(bytes.NewReader(data))
 	var arr _array
 	if err := dec.Decode(&arr); err != nil {
 		return err
@@ -175,7 +189,7 @@ func (x *Subset) MarshalCBOR() ([]byte, error) {
 }
 
 func (x *Subset) UnmarshalCBOR(data []byte) error {
-	dec := cbor.NewDecoder(bytes.NewReader(data))
+	dec := fastDecMode.NewDecoder(bytes.NewReader(data))
 	var arr _array
 	if err := dec.Decode(&arr); err != nil {
 		return err
@@ -261,7 +275,7 @@ func (x *Block) MarshalCBOR() ([]byte, error) {
 }
 
 func (x *Block) UnmarshalCBOR(data []byte) error {
-	dec := cbor.NewDecoder(bytes.NewReader(data))
+	dec := fastDecMode.NewDecoder(bytes.NewReader(data))
 	var arr _array
 	if err := dec.Decode(&arr); err != nil {
 		return err
@@ -445,7 +459,7 @@ func (x *Rewards) MarshalCBOR() ([]byte, error) {
 }
 
 func (x *Rewards) UnmarshalCBOR(data []byte) error {
-	dec := cbor.NewDecoder(bytes.NewReader(data))
+	dec := fastDecMode.NewDecoder(bytes.NewReader(data))
 	var arr _array
 	if err := dec.Decode(&arr); err != nil {
 		return err
@@ -507,7 +521,7 @@ func (x *Entry) MarshalCBOR() ([]byte, error) {
 }
 
 func (x *Entry) UnmarshalCBOR(data []byte) error {
-	dec := cbor.NewDecoder(bytes.NewReader(data))
+	dec := fastDecMode.NewDecoder(bytes.NewReader(data))
 	var arr _array
 	if err := dec.Decode(&arr); err != nil {
 		return err
@@ -582,7 +596,7 @@ func (x *Transaction) MarshalCBOR() ([]byte, error) {
 }
 
 func (x *Transaction) UnmarshalCBOR(data []byte) error {
-	dec := cbor.NewDecoder(bytes.NewReader(data))
+	dec := fastDecMode.NewDecoder(bytes.NewReader(data))
 	var arr _array
 	if err := dec.Decode(&arr); err != nil {
 		return err
@@ -677,7 +691,7 @@ func (x *DataFrame) MarshalCBOR() ([]byte, error) {
 }
 
 func (x *DataFrame) UnmarshalCBOR(data []byte) error {
-	dec := cbor.NewDecoder(bytes.NewReader(data))
+	dec := fastDecMode.NewDecoder(bytes.NewReader(data))
 	var arr _array
 	if err := dec.Decode(&arr); err != nil {
 		return err
